@@ -15,6 +15,7 @@ import (
 	"encoding/json"
 	"flag"
 	"fmt"
+	"go/types"
 	"os"
 	"os/exec"
 	"path/filepath"
@@ -25,6 +26,7 @@ import (
 	"time"
 
 	"gcacheck/internal/an"
+	"gcacheck/internal/norm"
 	"gcacheck/internal/props"
 
 	"golang.org/x/tools/go/ssa"
@@ -152,9 +154,239 @@ func runWorker(repo, cfgID, prop, tier string) {
 			pc.Run(c)
 		}()
 		c.Finish()
+		if failedResult(c.R) {
+			if r2 := decideOnEquivalentForm(repo, cfg, p, pc, c.R, tier); r2 != nil {
+				c.R = r2
+			}
+		}
 		c.R.WallS = time.Since(t1).Seconds() + loadS
 		enc.Encode(c.R)
 	}
+}
+
+func failedResult(r *an.Result) bool {
+	if r.Error != "" {
+		return true
+	}
+	for _, o := range r.Obls {
+		if o.Verdict == an.Violated || o.Verdict == an.Undecided {
+			return true
+		}
+	}
+	return false
+}
+
+var (
+	normCands   map[string][]norm.Cand // per config
+	normProgs   = map[string]*an.Program{}
+	normInlined = map[string][]string{}
+)
+
+// decideOnEquivalentForm re-decides a check that did not succeed on the program as written on semantically equivalent
+// forms of it, obtained by inlining helpers that have a single caller (package norm): first all the helpers that the
+// unproved obligations mention (as the helper or as its caller), then each of them alone. The first form on which every
+// obligation is proved gives the result (with a note naming the form); otherwise the original result stands.
+func decideOnEquivalentForm(repo string, cfg an.Config, p *an.Program, pc *an.PropertyCheck, r *an.Result, tier string) *an.Result {
+	env, flags := an.LoadEnv(cfg)
+	if normCands == nil {
+		normCands = map[string][]norm.Cand{}
+	}
+	cands, ok := normCands[cfg.ID]
+	if !ok {
+		cs, err := norm.Candidates(repo, env, flags, an.ModulePath, "./glow", "./server", "./client")
+		if err != nil {
+			cs = nil
+		}
+		normCands[cfg.ID] = cs
+		cands = cs
+	}
+	if os.Getenv("GCACHECK_DEBUG") != "" {
+		fmt.Fprintf(os.Stderr, "equivalent forms for %s/%s: %d candidates\n", pc.ID, cfg.ID, len(cands))
+	}
+	if len(cands) == 0 {
+		return nil
+	}
+	short := func(full string) string { return strings.ReplaceAll(full, an.ModulePath+"/", "") }
+	var text strings.Builder
+	for _, o := range r.Obls {
+		if o.Verdict == an.Violated || o.Verdict == an.Undecided {
+			text.WriteString(o.Key + " " + o.Func + " " + o.Desc + " " + o.Why + "\n")
+		}
+	}
+	failing := text.String()
+	var related []string
+	for _, cd := range cands {
+		if strings.Contains(failing, short(cd.Callee)) || (cd.Caller != "" && strings.Contains(failing, short(cd.Caller))) {
+			related = append(related, cd.Callee)
+		}
+	}
+	if len(related) == 0 {
+		// nothing names a function (an anchor was not found): the helpers that can hide an anchor are those that write
+		// shared state, perform file operations or hand out a pointer
+		anchorMissing := false
+		for _, o := range r.Obls {
+			if (o.Verdict == an.Violated || o.Verdict == an.Undecided) && (o.Rule == "ANCHOR" || strings.Contains(o.Why, "anchor missing")) {
+				anchorMissing = true
+			}
+		}
+		if !anchorMissing {
+			return nil
+		}
+		byName := map[string]*ssa.Function{}
+		for _, fn := range p.SrcFuncs() {
+			byName[an.FuncName(fn)] = fn
+		}
+		for _, cd := range cands {
+			fn := byName[short(cd.Callee)]
+			if fn == nil {
+				continue
+			}
+			e := p.Effect(fn)
+			ptr := false
+			res := fn.Signature.Results()
+			for i := 0; i < res.Len(); i++ {
+				if _, ok := res.At(i).Type().Underlying().(*types.Pointer); ok {
+					ptr = true
+				}
+			}
+			rank := -1
+			switch {
+			case ptr:
+				rank = 0
+			case e != nil && len(e.FileOps) > 0:
+				rank = 1
+			case e != nil && len(e.Writes) > 0:
+				rank = 2
+			}
+			if rank >= 0 {
+				dup := false
+				for _, x := range related {
+					if x[2:] == cd.Callee {
+						dup = true
+					}
+				}
+				if !dup {
+					related = append(related, fmt.Sprintf("%d:%s", rank, cd.Callee))
+				}
+			}
+		}
+		sort.Strings(related)
+		for i := range related {
+			related[i] = related[i][2:]
+		}
+		// singles only: inlining all of them at once would move the anchors of the other rules
+		if len(related) == 0 {
+			return nil
+		}
+		if len(related) > 16 {
+			related = related[:16]
+		}
+		var vs [][]string
+		for _, x := range related {
+			vs = append(vs, []string{x})
+		}
+		return tryVariants(repo, cfg, pc, tier, vs, short, failing, r)
+	}
+	if len(related) > 12 {
+		return nil
+	}
+	variants := [][]string{related}
+	if len(related) > 1 {
+		for _, x := range related {
+			variants = append(variants, []string{x})
+		}
+	}
+	return tryVariants(repo, cfg, pc, tier, variants, short, failing, r)
+}
+
+// coversFailures: the result on the equivalent form decides what was not decided on the source as written: every rule
+// that failed there applies here at least as often (and all its instances are proved). A form on which a rule simply
+// does not apply any more (its anchor moved) proves nothing about that rule.
+func coversFailures(orig, r2 *an.Result) bool {
+	failedRules := map[string]bool{}
+	count := func(r *an.Result, rule string) int {
+		n := 0
+		for _, o := range r.Obls {
+			if o.Rule == rule && o.Verdict != an.Note {
+				n++
+			}
+		}
+		return n
+	}
+	for _, o := range orig.Obls {
+		if o.Verdict != an.Violated && o.Verdict != an.Undecided {
+			continue
+		}
+		if o.Rule == "ANCHOR" || strings.Contains(o.Why, "anchor missing") {
+			continue // no rule instance: the form must simply decide everything (checked by the caller)
+		}
+		failedRules[o.Rule] = true
+	}
+	for rule := range failedRules {
+		// the rule that failed applies on the form at least as often as on the source as written (and, by the
+		// caller's test, every instance is proved there)
+		if count(r2, rule) < count(orig, rule) {
+			if os.Getenv("GCACHECK_DEBUG") != "" {
+				fmt.Fprintf(os.Stderr, "equivalent form has fewer instances of rule %s: %d < %d\n", rule, count(r2, rule), count(orig, rule))
+			}
+			return false
+		}
+	}
+	return true
+}
+
+func tryVariants(repo string, cfg an.Config, pc *an.PropertyCheck, tier string, variants [][]string, short func(string) string, failing string, orig *an.Result) *an.Result {
+	env, flags := an.LoadEnv(cfg)
+	for _, v := range variants {
+		key := cfg.ID + "|" + strings.Join(v, ",")
+		p2, have := normProgs[key]
+		if !have {
+			set := map[string]bool{}
+			for _, x := range v {
+				set[x] = true
+			}
+			norm.Only = func(full string) bool { return set[full] }
+			res, err := norm.Inline(repo, env, flags, an.ModulePath, "./glow", "./server", "./client")
+			norm.Only = nil
+			if err != nil || len(res.Inlined) == 0 {
+				normProgs[key] = nil
+				continue
+			}
+			p2, err = an.LoadOverlay(repo, cfg, res.Overlay)
+			if err != nil {
+				normProgs[key] = nil
+				continue
+			}
+			if tier == "thorough" {
+				p2.SetInlineBound(8)
+			}
+			normProgs[key] = p2
+			normInlined[key] = res.Inlined
+		}
+		if p2 == nil {
+			continue
+		}
+		c2 := an.NewCtx(p2, pc.ID, tier)
+		func() {
+			defer func() {
+				if rec := recover(); rec != nil {
+					c2.R.Error = fmt.Sprintf("checker panic: %v", rec)
+				}
+			}()
+			pc.Run(c2)
+		}()
+		c2.Finish()
+		if !failedResult(c2.R) && coversFailures(orig, c2.R) {
+			var names []string
+			for _, x := range v {
+				names = append(names, short(x))
+			}
+			c2.Note("FORM", nil, 0, "equivalent-form", "decided on an equivalent form of the source: the single-caller helper(s) "+strings.Join(names, ", ")+" inlined into their caller (package norm; positions refer to that form); "+fmt.Sprintf("%d obligation(s) were not proved on the source as written", strings.Count(failing, "\n")))
+			c2.Finish()
+			return c2.R
+		}
+	}
+	return nil
 }
 
 // ---- parent ---------------------------------------------------------------------
